@@ -513,6 +513,16 @@ fn judge(scn: &QueueScn, end: &EndState, sh: &Shared) -> Verdict {
                     }
                 }
             }
+            // exact FIFO: the order of the successful try_sends made inside emits (as reported by the
+            // shim) is the order in which metrics were accepted; delivery must follow it
+            let order = acceptance_order(end, &log);
+            if order.len() == del.len() && order.iter().all(|m| del.contains(m)) && order != del {
+                let mut props = vec!["C08"];
+                if n_panics_scripted > 0 {
+                    props.push("C11");
+                }
+                br(&mut out, &props, "fifo-order-broken", format!("metrics entered the queue in the order {:?} but were handed to the wrapped sink in the order {:?}", order, del));
+            }
             // real-time precedence from the event log: emit A returned before emit B was called
             let spans = emit_spans(end, &log);
             for (ma, _, ra) in &spans {
@@ -746,6 +756,47 @@ fn thread_index(i: usize, end: &EndState) -> usize {
         "prod" => 1 + end.threads[..i].iter().filter(|t| t.name == "prod").count(),
         _ => usize::MAX,
     }
+}
+
+/// Accepted metrics in the order of their successful `try_send` (from the shim's event log).
+fn acceptance_order(end: &EndState, log: &[Log]) -> Vec<String> {
+    let mut per_thread: std::collections::HashMap<usize, Vec<(String, bool)>> = Default::default();
+    for l in log {
+        if let Log::EmitEnd { thread, metric, res, .. } = l {
+            per_thread.entry(*thread).or_default().push((metric.clone(), res.is_ok()));
+        }
+    }
+    let chan = match end.events.iter().find(|e| e.kind == Some(OpKind::ChanTrySend)) {
+        Some(e) => e.a,
+        None => return vec![],
+    };
+    // model thread -> (harness thread, index of the emit in progress)
+    let mut open: std::collections::HashMap<usize, (usize, usize)> = Default::default();
+    let mut count: std::collections::HashMap<usize, usize> = Default::default();
+    let mut order = vec![];
+    for e in &end.events {
+        match e.kind {
+            None if e.a == MARK_EMIT_CALL => {
+                let n = count.entry(e.b).or_default();
+                open.insert(e.tid, (e.b, *n));
+                *n += 1;
+            }
+            None if e.a == MARK_EMIT_RET => {
+                open.remove(&e.tid);
+            }
+            Some(OpKind::ChanTrySend) if e.a == chan && e.b == 1 => {
+                if let Some((ht, n)) = open.get(&e.tid) {
+                    if let Some((m, ok)) = per_thread.get(ht).and_then(|v| v.get(*n)) {
+                        if *ok {
+                            order.push(m.clone());
+                        }
+                    }
+                }
+            }
+            _ => {}
+        }
+    }
+    order
 }
 
 /// (metric, position of the call mark, position of the return mark) per emit, in event order.
